@@ -388,6 +388,25 @@ def rule_ax_jsonkey(repo, col):
     g = nested_functions(f).get('subset_generator')
     found = False
     if g is not None:
+        # semantic form: the member handed to direct_parse_key, evaluated
+        # for both values of `axis`
+        from .flow import value_at
+        pk = [c for c in ast.walk(g) if isinstance(c, ast.Call) and
+              call_name(c) == 'direct_parse_key' and len(c.args) == 2]
+        got = {}
+        for v in ('observation', 'sample'):
+            got[v] = {value_at(g, c.args[1], {'axis': v}) for c in pk} - \
+                {None}
+        if pk and all(len(got[v]) == 1 for v in got):
+            found = True
+            a_, b_ = got['observation'].pop(), got['sample'].pop()
+            col.check((a_, b_) == ('columns', 'rows'), rule, SUBSET,
+                      '_subset_table', 'pass-through', pk[0],
+                      "the other axis' member is copied unchanged",
+                      "when slicing observations the member '%s' is passed "
+                      "through and when slicing samples '%s' (expected "
+                      "'columns' / 'rows')" % (a_, b_))
+    if g is not None and not found:
         for n in ast.walk(g):
             if isinstance(n, ast.If) and isinstance(n.test, ast.Compare) and \
                     dotted(n.test.left) == 'axis' and \
@@ -812,6 +831,37 @@ def rule_drop_empty(repo, col):
     for rel, q in ((TABLE, 'Table.from_hdf5'), (PARSE, 'parse_biom_table')):
         f = repo.func(rel, q)
         nested = nested_functions(f)
+        # semantic form first: the axis argument of the emptiness filter,
+        # evaluated for both values of the `axis` parameter
+        from .flow import value_at
+        decided = False
+        for n in body_walk(f):
+            if isinstance(n, ast.Call) and isinstance(
+                    n.func, ast.Attribute) and n.func.attr == 'filter' \
+                    and n.args and dotted(n.args[0]) in nested and \
+                    _any_value_predicate(nested[dotted(n.args[0])]) \
+                    is not None:
+                ax = kwarg(n, 'axis') or (n.args[1] if len(n.args) > 1
+                                          else None)
+                if ax is None:
+                    continue
+                got = tuple(value_at(f, ax, {'axis': v})
+                            for v in ('sample', 'observation'))
+                if None in got:
+                    continue
+                decided = True
+                col.check(got == ('observation', 'sample'), 'AX-IDAPI', rel,
+                          q, 'invert-axis', n,
+                          'the axis is inverted before the empty-vector '
+                          'filter', 'the empty-vector filter runs on axis '
+                          '%s for a read subset along (sample, observation): '
+                          'the other axis keeps its all-zero vectors and '
+                          'selected ids that are empty are dropped'
+                          % (got,))
+                col.ok('AX-IDAPI', rel, q, 'empty-filter-axis', n,
+                       'filters the inverted axis')
+        if decided:
+            continue
         # find: axis = 'observation' if axis == 'sample' else 'sample'
         flips = []
         for n in body_walk(f):
